@@ -203,7 +203,13 @@ func genScenario(rng *rand.Rand, seed uint64, index int) *Scenario {
 	depth := 2 + rng.IntN(3) // 2..4
 	secure := true
 	for i := 1; i <= depth; i++ {
-		l := LevelSpec{Label: fmt.Sprintf("%c%d", 'a'+byte(rng.IntN(20)), i), Servers: 1 + rng.IntN(2)}
+		// letter + level; never 'f': "f<level>" is also the name of a fresh-name
+		// probe (f0 … f13) one level up
+		letter := 'a' + byte(rng.IntN(20))
+		if letter == 'f' {
+			letter = 'u'
+		}
+		l := LevelSpec{Label: fmt.Sprintf("%c%d", letter, i), Servers: 1 + rng.IntN(2)}
 		l.NSTTL, l.DSTTL = pickTTL(rng), pickTTL(rng)
 		switch x := rng.IntN(10); {
 		case !secure:
